@@ -106,6 +106,13 @@ func (fr *frame) call(v ssa.Value, c *ssa.CallCommon, st *State, site ssa.Instru
 			key = callee.Origin().String()
 		}
 	}
+	if callee == nil && !c.IsInvoke() {
+		// call of a function value: a contract may be attached to its (named) type
+		k := "functype:" + types.TypeString(c.Value.Type(), nil)
+		if _, ok := e.db.ByKey[k]; ok {
+			key = k
+		}
+	}
 	anchor := fr.callAnchor(anchorName(key, c), site)
 	fr.callArgs = args
 	fr.callArgTypes = argTypes
@@ -352,21 +359,39 @@ func (fr *frame) applyContract(ct *Contract, callee *ssa.Function, sig *types.Si
 	}
 	pre := st.clone()
 	fr.advanceHW(st)
-	// effects
+	res := fr.freshResults(sig, st, sanitizeLabel(ct.Key))
+	// effects (modifies items may mention the results, e.g. ghost state of a new object)
+	mctx := *ctx
+	mctx.results = res
+	mctx.rtypes, mctx.rnames = resultTypes(sig)
+	if mctx.results == nil {
+		mctx.results = []Term{}
+	}
+	fr.pendingFrame = nil
+	fr.deferFrame = true
 	if ct.HasMods || ct.Trusted {
 		for _, m := range ct.Mods {
-			fr.applyModSpec(m, ctx, st)
+			fr.applyModSpec(m, &mctx, st)
 		}
 	} else if callee != nil && len(callee.Blocks) > 0 {
 		ms := e.ms.funcMods(callee)
 		if ms.all || ms.heapAll || len(ms.keys) > 0 {
-			fr.frameHavoc(st, "callee "+ct.Key+" has no modifies clause")
+			what := "callee " + ct.Key + " has no modifies clause"
+			ghost := ms.all
+			for k := range ms.keys {
+				if strings.HasPrefix(k, "G:") {
+					ghost = true
+				}
+			}
+			if !ghost {
+				what = "heap-only:" + what
+			}
+			fr.frameHavoc(st, what)
 		}
 		fr.applyMods(st, ms, "call "+ct.Key)
 	} else {
 		fr.havocEverything(st, false, ct.Key)
 	}
-	res := fr.freshResults(sig, st, sanitizeLabel(ct.Key))
 	post := *ctx
 	post.st = st
 	post.old = pre
@@ -398,6 +423,13 @@ func (fr *frame) applyContract(ct *Contract, callee *ssa.Function, sig *types.Si
 		}
 		fr.assume(st, g)
 	}
+	// frame obligations of the callee's effects are checked knowing what it ensures
+	// (e.g. that the object whose ghost state it initialised is fresh)
+	fr.deferFrame = false
+	for _, f := range fr.pendingFrame {
+		f()
+	}
+	fr.pendingFrame = nil
 	return res
 }
 
@@ -790,9 +822,9 @@ func (fr *frame) frameGhostAt(key, idx string, st *State) {
 	var alts []string
 	// state attached to an object allocated during this call is not part of the frame
 	if k := fr.vc().kinds[key]; k != nil && k.Idx == SInt {
-		alts = append(alts, fmt.Sprintf("(>= (rootref %s) hw!0)", idx))
+		alts = append(alts, fmt.Sprintf("(>= (rootref %s) hw!0)", idx), fmt.Sprintf("(= %s 0)", idx))
 	} else {
-		alts = append(alts, fmt.Sprintf("(>= (vref %s) hw!0)", idx))
+		alts = append(alts, fmt.Sprintf("(>= (vref %s) hw!0)", idx), fmt.Sprintf("(= (vref %s) 0)", idx))
 	}
 	for _, d := range e.declMods {
 		if d.key != key && d.key != "*" {
@@ -803,7 +835,15 @@ func (fr *frame) frameGhostAt(key, idx string, st *State) {
 		}
 		alts = append(alts, eq(idx, d.idx))
 	}
-	fr.oblige("frame", "", fr.nextAnchor("ghost"), st, or(alts...), "ghost state "+key+" is modified at a key not listed in modifies", nil)
+	goal := or(alts...)
+	run := func() {
+		fr.oblige("frame", "", fr.nextAnchor("ghost"), st, goal, "ghost state "+key+" is modified at a key not listed in modifies", nil)
+	}
+	if fr.deferFrame {
+		fr.pendingFrame = append(fr.pendingFrame, run)
+		return
+	}
+	run()
 }
 
 // callAnchor numbers the call sites of one callee in source order (not in the
@@ -870,6 +910,12 @@ func (fr *frame) anchorNameOf(c *ssa.CallCommon) string {
 	if callee != nil && callee.Origin() != nil {
 		if _, ok := e.db.ByKey[key]; !ok {
 			key = callee.Origin().String()
+		}
+	}
+	if callee == nil && !c.IsInvoke() {
+		k := "functype:" + types.TypeString(c.Value.Type(), nil)
+		if _, ok := e.db.ByKey[k]; ok {
+			key = k
 		}
 	}
 	return anchorName(key, c)
